@@ -33,6 +33,7 @@ regenerated negation table is a true negation except `is_`/`is_not` with themsel
 namespace SaVerif.Props.C01
 open SaVerif.Expr SaVerif.Pratt SaVerif.Expr.Gen
 
+
 /-! ## §1 the backend reads a well-bracketed tree back as itself -/
 
 /-- **parse_print_roundtrip** (full strength: every grammar, every tree of any size). -/
@@ -255,6 +256,9 @@ theorem api_tree_read_back_mysql (u : U) (e : SaExpr) (hu : NumU u = true ∨ Bo
     parse mysql (render .mysql true e).print = some (render .mysql true e).norm :=
   api_tree_read_back .mysql mysql coreCompat_mysql prefixNoTern_mysql u e hu hb
 
+section Sem
+variable [Abs]
+
 /-- the standard three-valued interpretation satisfies the hypotheses of the value theorems -/
 theorem stdI_assoc (env : String → Val) :
     ∀ s, G.assocSym s = true → ∀ a b c : SV,
@@ -285,7 +289,7 @@ theorem api_tree_value_bool (d : Dialect) (g : Grammar) (hg : coreCompat g = tru
     (hpt : prefixNoTern g) (env : String → Val) (u : U) (e : SaExpr)
     (hu : BoolU u = true) (hn : noIsGen u = true) (hb : build u = some e) :
     (parse g (render d true e).print).map (fun t => truth (evalG (stdI env) t).scalar)
-      = some (evalBoolU env u) := by
+      = some (evalBoolU env d u) := by
   have hcw := build_core_WG u e (Or.inr hu) hb
   have h1 := backend_value_of_text g (stdI env) (stdI_assoc env) (render d true e)
     (wb_norm_of_ok g _ (ok_render g (compat_of_bool g hg) hpt d e hcw.1 hcw.2))
@@ -295,14 +299,14 @@ theorem api_tree_value_bool (d : Dialect) (g : Grammar) (hg : coreCompat g = tru
     rw [hp] at h1
     simp only [Option.map_some, Option.some.injEq] at h1 ⊢
     rw [h1, evalG_render env d e hcw.1]
-    exact (build_bool_eval env u e hu hn hb).1
+    exact (build_bool_eval env d u e hu hn hb).1
 
 /-- the same for numeric trees (value, NULL included) -/
 theorem api_tree_value_num (d : Dialect) (g : Grammar) (hg : coreCompat g = true)
     (hpt : prefixNoTern g) (env : String → Val) (u : U) (e : SaExpr)
     (hu : NumU u = true) (hb : build u = some e) :
     (parse g (render d true e).print).map (fun t => (evalG (stdI env) t).scalar)
-      = some (evalNumU env u) := by
+      = some (evalNumU env d u) := by
   have hcw := build_core_WG u e (Or.inl hu) hb
   have h1 := backend_value_of_text g (stdI env) (stdI_assoc env) (render d true e)
     (wb_norm_of_ok g _ (ok_render g (compat_of_bool g hg) hpt d e hcw.1 hcw.2))
@@ -312,7 +316,7 @@ theorem api_tree_value_num (d : Dialect) (g : Grammar) (hg : coreCompat g = true
     rw [hp] at h1
     simp only [Option.map_some, Option.some.injEq] at h1 ⊢
     rw [h1, evalG_render env d e hcw.1]
-    exact build_num_eval env u e hu hb
+    exact build_num_eval env d u e hu hb
 
 /-- the same statement about `emit` (= `render ∘ lower`, the compiler's full pipeline including
     the compile-time rewriting of the LIKE-based string operators, which is the identity on
@@ -321,15 +325,17 @@ theorem api_tree_value_bool_emit (d : Dialect) (g : Grammar) (hg : coreCompat g 
     (hpt : prefixNoTern g) (env : String → Val) (u : U) (e : SaExpr)
     (hu : BoolU u = true) (hn : noIsGen u = true) (hb : build u = some e) :
     (parse g (emit d e).print).map (fun t => truth (evalG (stdI env) t).scalar)
-      = some (evalBoolU env u) := by
+      = some (evalBoolU env d u) := by
   rw [emit_core d e (build_core_WG u e (Or.inr hu) hb).1]
   exact api_tree_value_bool d g hg hpt env u e hu hn hb
 
 theorem api_tree_value_bool_sqlite (env : String → Val) (u : U) (e : SaExpr)
     (hu : BoolU u = true) (hn : noIsGen u = true) (hb : build u = some e) :
     (parse sqlite (render .sqlite true e).print).map (fun t => truth (evalG (stdI env) t).scalar)
-      = some (evalBoolU env u) :=
+      = some (evalBoolU env .sqlite u) :=
   api_tree_value_bool .sqlite sqlite coreCompat_sqlite prefixNoTern_sqlite env u e hu hn hb
+
+end Sem
 
 /-- non-vacuity: a tree of the fragment with nesting, flattening, negation and `IS NULL` -/
 example : BoolU (.not_ (.and_ [.bin .eq (.col "a" .int) (.li 1),
